@@ -302,6 +302,26 @@ pub fn run(tier: Tier) -> i32 {
         }
     });
     stats.merge(s);
+    // 1b. configurations: the registration on every (re)connection carries the configured password and currency
+    let s = ctx.shards("configs", 8, |_i, seed, st| {
+        let strat = (
+            prop_oneof![Just(0u64), Just(999_999), Just(1), 0u64..=999_999],
+            prop_oneof![Just(978u64), Just(826), Just(752), Just(0), Just(9999)],
+            0usize..6,
+            any::<u16>(),
+            any::<bool>(),
+        );
+        ctx.proptest(seed, tier.pick(60, 2_000), &strat, st, |(password, currency, opi, sel, tid_same), st| {
+            let op = OPS[*opi];
+            let cfg = CfgSpec { password: *password, currency: *currency, terminal_id: if *tid_same { "52523535".into() } else { "11112222".into() }, ..Default::default() };
+            let scs = single_fault_scenarios(op, &cfg);
+            let (sc, _) = &scs[(*sel as usize * scs.len()) >> 16];
+            st.case(true, fnv(&serde_json::to_vec(sc).unwrap()));
+            st.class("config-variation");
+            check_scenario(sc)
+        });
+    });
+    stats.merge(s);
     // 2. sampled multi-fault plans
     let n: u32 = tier.pick(5_000, 300_000);
     let s = ctx.shards("multi", 16, |_i, seed, st| {
